@@ -114,6 +114,22 @@ def replay_state(chk, st, cplx, names, counter):
                 if bad:
                     chk.violation('C01:Periodogram:%s:values' % mode,
                                   'Periodogram(x, window=%s, NFFT=%d).psd is not |DFT(x*w)|^2/N: %s' % (name, nfft, bad), dict(case, observed=v))
+                # the same live object after its window / NFFT were re-assigned: still the definition
+                # (reference: a freshly constructed object, itself checked against the spec above)
+                other = use[(use.index(name) + 1) % len(use)] if name in use else 'hamming'
+                nf2 = nf[(nf.index(nfft) + 1) % len(nf)]
+                for attr, val in (('window', other), ('NFFT', nf2)):
+                    if window(N, other) is None:
+                        continue
+                    ok1, _ = call_guard(setattr, obj, attr, val)
+                    ok2, live = call_guard(lambda: np.array(obj.psd))
+                    ok3, fresh = call_guard(lambda: np.array(Periodogram(x.copy(), window=obj.window, NFFT=obj.NFFT).psd))
+                    if ok1 and ok2 and ok3:
+                        badl = cmp_vec(live, fresh, tol=1e-9, name='psd after %s assignment' % attr)
+                        if badl:
+                            chk.violation('C01:Periodogram:%s:live-object:%s' % (mode, attr),
+                                          'Periodogram object after assigning %s=%r no longer returns |DFT(x*w)|^2/N for its attributes: %s'
+                                          % (attr, val, badl), dict(case, assigned={attr: val}))
             # Wiener-Khinchin: rectangular window, lag N-1, biased, NFFT >= 2N-1
             if name == 'rectangular' and nfft >= 2 * N - 1 and N >= 2:
                 for method in ('xcorr', 'CORRELATION'):
